@@ -1,0 +1,36 @@
+//go:build verif
+
+package mint
+
+// Contracts for x/mint (begin-block minting), read by /verif/bin/govc.
+// Comment-only: compiled only with -tags verif and adds no code.
+//
+// blocktime(ctx) is the block time of the context in nanoseconds; deref(p) is the
+// value a pointer points to. 62769647725999999 ns (about 726 days) is the largest
+// gap for which DailyMintRate * elapsed_ms fits in int64.
+
+//@ func MintBlockProvision(ctx, k, currentTime, minter) (err)
+//@ requires [gap_below_overflow] minter.PreviousBlockTime != nil ==> currentTime - deref(minter.PreviousBlockTime) <= 62769647725999999
+//@ requires [pools_distinct_from_mint] module("time_based_rewards") != module("mint") && module("fee_collector") != module("mint") && module("time_based_rewards") != module("fee_collector")
+//@ modifies bank.bal, bank.supply
+//@ ensures [no_previous_time_no_mint] minter.PreviousBlockTime == nil ==> err == nil && bank.supply == old(bank.supply) && bank.bal == old(bank.bal)
+//@ ensures [mints_rate_times_elapsed_ms] err == nil && minter.PreviousBlockTime != nil ==> bank.supply == old(bank.supply) + 146940000 * ((currentTime - deref(minter.PreviousBlockTime)) / 1000000) / 86400000
+//@ ensures [never_more_than_rate_times_time] (bank.supply - old(bank.supply)) * 86400000000000 <= 146940000 * max(0, currentTime - deref(minter.PreviousBlockTime)) || minter.PreviousBlockTime == nil
+//@ ensures [quarter_to_fee_collector] err == nil && minter.PreviousBlockTime != nil ==> bank.bal[module("fee_collector")] == old(bank.bal[module("fee_collector")]) + (bank.supply - old(bank.supply))/4
+//@ ensures [three_quarters_to_reward_pool] err == nil && minter.PreviousBlockTime != nil ==> bank.bal[module("time_based_rewards")] == old(bank.bal[module("time_based_rewards")]) + (bank.supply - old(bank.supply)) - (bank.supply - old(bank.supply))/4
+//@ ensures [mint_account_net_zero] err == nil ==> bank.bal[module("mint")] == old(bank.bal[module("mint")])
+//@ ensures [supply_never_shrinks] bank.supply >= old(bank.supply)
+
+//@ func SetPreviousBlockTime(ctx, k, blockTime) (err)
+//@ modifies mint.Minter
+//@ ensures [records_block_time] err == nil ==> mint.Minter.PreviousBlockTime != nil && deref(mint.Minter.PreviousBlockTime) == blockTime
+//@ ensures [keeps_initialized_flag] err == nil ==> mint.Minter.Initialized == old(mint.Minter.Initialized)
+
+//@ func BeginBlocker(ctx, k) (err)
+//@ requires [gap_below_overflow] has(mint.Minter) && mint.Minter.PreviousBlockTime != nil ==> blocktime(ctx) - deref(mint.Minter.PreviousBlockTime) <= 62769647725999999
+//@ requires [pools_distinct_from_mint] module("time_based_rewards") != module("mint") && module("fee_collector") != module("mint") && module("time_based_rewards") != module("fee_collector")
+//@ modifies bank.bal, bank.supply, mint.Minter
+//@ ensures [nothing_minted_before_init] !(has(old(mint.Minter)) && old(mint.Minter.Initialized)) ==> bank.supply == old(bank.supply) && bank.bal == old(bank.bal)
+//@ ensures [mints_rate_times_elapsed_ms] err == nil && old(mint.Minter.Initialized) && old(mint.Minter.PreviousBlockTime) != nil && blocktime(ctx) != zerotime() ==> bank.supply == old(bank.supply) + 146940000 * ((blocktime(ctx) - old(deref(mint.Minter.PreviousBlockTime))) / 1000000) / 86400000
+//@ ensures [advances_previous_time] err == nil && old(mint.Minter.Initialized) && blocktime(ctx) != zerotime() ==> mint.Minter.PreviousBlockTime != nil && deref(mint.Minter.PreviousBlockTime) == blocktime(ctx)
+//@ ensures [supply_never_shrinks_here] bank.supply >= old(bank.supply)
